@@ -786,7 +786,8 @@ def l6_check(case, res):
                              base_url="http://example.org/corpora", number_of_documents=body.count(b"\n"),
                              compressed_size_in_bytes=len(arch) if arch else None, uncompressed_size_in_bytes=len(body), target_index="idx")
         corpora.append(track.DocumentCorpus(cname, [ds]))
-    tasks = [track.Task(f"bulk-{c}", track.Operation(f"bulk-{c}", "bulk", params={"bulk-size": 2, "corpora": [c]})) for c in used]
+    # (inline bulk operations without a name of their own all carry the default name "bulk"; only the task names differ)
+    tasks = [track.Task(f"bulk-{c}", track.Operation("bulk", "bulk", params={"bulk-size": 2, "corpora": [c]})) for c in used]
     trk = track.Track(name="verif", corpora=corpora, challenges=[track.Challenge("c", default=True, schedule=tasks)])
     cfg = config.Config()
     cfg.add(config.Scope.application, "benchmarks", "local.dataset.cache", root)
